@@ -37,6 +37,10 @@ def indep_case(draw, names=None):
         dims = [[d, draw(st.integers(1, 4))] for d in pool[:nd]]
     npos = int(np.prod([n for _, n in dims]))
     specs = [draw(gen.spectrum(kinds=gen.MULTI_KINDS + ("multinoisy", "multinoisy"))) for _ in range(npos)]
+    if draw(st.booleans()):
+        # neighbours of very different energy level (a storm next to a near-calm record): up to twelve orders of magnitude
+        for s_ in specs:
+            s_["amp"] = draw(st.sampled_from([1e-9, 1e-6, 1e-3, 1.0, 1e3]))
     winds = [dict(wspd=draw(st.floats(0, 35)), wdir=draw(st.floats(0, 360)), dpt=draw(st.sampled_from([2.0, 20.0, 300.0]))) for _ in range(npos)]
     op = draw(ops.op_spec(names=names, has_dir=True, nf=len(fg["f"])))
     # several operations per dataset so that every catalogue entry is met often
@@ -205,7 +209,7 @@ def check_dataset(case, ctx):
 
 
 def facets():
-    allops = [n for n in ops.CATALOGUE]
+    allops = [n for n in ops.CATALOGUE if ops.CATALOGUE[n][2] != "timestat"]  # hmax depends on the whole time axis by definition
     return [
         Facet("per_position", indep_case(allops), _each_op(check_per_position), quick=240, thorough=12000, qshards=8),
         Facet("perturb", indep_case(allops), _each_op(check_perturb), quick=240, thorough=12000, qshards=6),
